@@ -9,6 +9,7 @@ import (
 	"mime"
 	"net/http"
 	"path"
+	"strings"
 
 	"github.com/tdewolff/minify/v2/vsync"
 )
@@ -29,6 +30,55 @@ var c12inputs = []input{
 var c12short = []input{{"application/json", "[1 ]"}, {"text/css", "a{b:c }"}, {"text/html", "<b> a"}, {"application/javascript", "a ;"}}
 
 func join(cs [][]byte) []byte { return bytes.Join(cs, nil) }
+
+// earlyReturnScenario: the minifier returns nil after a prefix of the input; the writes that follow may fail with a closed
+// pipe, but they may not block, and Close must return with everything the minifier wrote delivered.
+func earlyReturnScenario(chunks [][]byte) scenario {
+	r := reference("x/prefix", join(chunks))
+	name := fmt.Sprintf("Writer x/prefix (minifier returns early) %s", chunkString(chunks))
+	return scenario{name, func() (func(), func(*vsync.Sched) ([]string, string)) {
+		var atClose []byte
+		var closeErr error
+		var writeErrs []string
+		closed := false
+		cs := cloneChunks(chunks)
+		body := func() {
+			m := newRegistry()
+			sink := &obsSink{}
+			w := m.Writer("x/prefix", sink)
+			for _, c := range cs {
+				n, err := w.Write(c)
+				vsync.Observe("w", n, err)
+				if err != nil {
+					writeErrs = append(writeErrs, err.Error())
+				}
+			}
+			closeErr = w.Close()
+			atClose = append([]byte{}, sink.buf.Bytes()...)
+			closed = true
+			vsync.Observe("close", closeErr, atClose)
+		}
+		verify := func(s *vsync.Sched) ([]string, string) {
+			var v []string
+			if !closed {
+				return v, "not-closed"
+			}
+			if !bytes.Equal(atClose, r.out) {
+				v = append(v, fmt.Sprintf("at the instant Close returned the sink held %q, the plain call produces %q", atClose, r.out))
+			}
+			for _, e := range writeErrs {
+				if e != io.ErrClosedPipe.Error() {
+					v = append(v, "Write failed with "+e)
+				}
+			}
+			if closeErr != nil {
+				v = append(v, fmt.Sprintf("Close returned %v", closeErr))
+			}
+			return v, fmt.Sprintf("%q/%v/%v", atClose, writeErrs, errStr(closeErr))
+		}
+		return body, verify
+	}, true}
+}
 
 func writerScenario(in input, r ref, chunks [][]byte, closeTwice bool) scenario {
 	r = reference(in.mt, join(chunks))
@@ -157,7 +207,12 @@ func respScenario(kind string, ct, uri string, payload string, chunks [][]byte, 
 	// expected media type: Content-Type, else extension of the request path
 	mt := ct
 	if mt == "" {
-		mt = mime.TypeByExtension(path.Ext(uri))
+		// the extension of the request PATH: a query string or fragment is not part of it
+		pth := uri
+		if i := strings.IndexAny(pth, "?#"); i >= 0 {
+			pth = pth[:i]
+		}
+		mt = mime.TypeByExtension(path.Ext(pth))
 	}
 	payload = string(join(chunks))
 	r := reference(mt, []byte(payload))
@@ -293,6 +348,10 @@ func c12Scenarios(tier string) []scenario {
 			}
 		}
 	}
+	// a minifier that returns before the end of its input, fed in 1..4 chunks
+	for _, cs := range [][][]byte{{[]byte("titlebody")}, {[]byte("ti"), []byte("tlebody")}, {[]byte("title"), []byte("body")}, {[]byte("t"), []byte("itle"), []byte("body")}, {[]byte("title"), []byte("bo"), []byte("d"), []byte("y")}} {
+		scs = append(scs, earlyReturnScenario(cs))
+	}
 	// Reader: source chunking × consumer read sizes
 	for _, in := range c12inputs {
 		r := reference(in.mt, []byte(in.in))
@@ -307,7 +366,9 @@ func c12Scenarios(tier string) []scenario {
 	for _, c := range []rw{{"text/css", "/x", "a{b:0px}"}, {"", "/s.css", "a{b:0px}"}, {"text/html; charset=utf-8", "/i.css", "<p>a  b"}, {"", "/x.unknownext", "a  b"},
 		{"application/json", "/", `[1000,}`}, {"", "/noext", "a  b"}, {"text/plain", "/a.css", "a{b:0px}"},
 		// media types with parameters that reach minifiers registered by regular expression (as in the README)
-		{"application/json; charset=utf-8", "/", `[1000, 2]`}, {"", "/app.js", "var  x = 1 ;"}, {"application/ld+json;charset=UTF-8", "/", `{"a" : 1}`}, {"", "/f.xml", "<a> <b/> </a>"}, {"image/svg+xml; charset=utf-8", "/", "<svg> <g/> </svg>"}} {
+		{"application/json; charset=utf-8", "/", `[1000, 2]`}, {"", "/app.js", "var  x = 1 ;"}, {"application/ld+json;charset=UTF-8", "/", `{"a" : 1}`}, {"", "/f.xml", "<a> <b/> </a>"}, {"image/svg+xml; charset=utf-8", "/", "<svg> <g/> </svg>"},
+		// request targets with a query string
+		{"", "/s.css?v=1.2", "a{b:0px}"}, {"", "/app.js?cb=x.y", "var  x = 1 ;"}, {"", "/page?file=a.css", "a  b"}} {
 		for _, kind := range []string{"ResponseWriter", "Middleware", "MiddlewareWithError"} {
 			for i, cs := range compositions([]byte(c.payload), 2) {
 				if !thorough && i%3 != 0 {
